@@ -137,6 +137,17 @@ Proof.
 Qed.
 Print Assumptions hash_closed_form.
 
+(* ---- Equal on two types of one graph ----
+   expr.Equal hashes each operand with a seen map of its own (Hash twice); the operands
+   may live in the same environment and reach the same Object pointers. *)
+Theorem equal_symmetric fuel E1 t1 E2 t2 : Equal fuel E1 t1 E2 t2 = Equal fuel E2 t2 E1 t1.
+Proof. exact (Equal_sym fuel E1 t1 E2 t2). Qed.
+Print Assumptions equal_symmetric.
+
+Theorem equal_reflexive fuel E t h : Hash fuel equal_flags E t = Some h -> Equal fuel E t E t = Some true.
+Proof. exact (Equal_refl fuel E t h). Qed.
+Print Assumptions equal_reflexive.
+
 (* ---- copies (expr.Dup) ----
    The copy of user type pointer id is named offu + id and the copy of Object pointer
    key is named offk + key; uid_inj: distinct user types have distinct ID() (the memo of
@@ -176,6 +187,17 @@ Theorem dup_equal E offu offk fl fuel f t E' t' h :
   Hash f fl E t = Some h -> Hash f fl E' t' = Some h.
 Proof. intros H1 H2. exact (dup_equal_lemma E offu offk H1 H2 fl fuel f t E' t' h). Qed.
 Print Assumptions dup_equal.
+
+(* Equal(a, b) = Equal(Dup a, Dup b) for two types a, b of one graph, each copied on its
+   own: a copy is structurally equal to its original *)
+Theorem equal_copy_invariant E offu offk offu' offk' fa fb fuel a b Ea a' Eb b' v :
+  (forall id id' d d', elookup id E = Some d -> elookup id' E = Some d' -> ut_id d = ut_id d' -> id = id') ->
+  (forall id d, elookup id E = Some d -> names_ok (ut_type d)) ->
+  names_ok a -> names_ok b ->
+  Dup E offu offk fa a = Some (Ea, a') -> Dup E offu' offk' fb b = Some (Eb, b') ->
+  Equal fuel E a E b = Some v -> Equal fuel Ea a' Eb b' = Some v.
+Proof. exact (Equal_copies E offu offk offu' offk' fa fb fuel a b Ea a' Eb b' v). Qed.
+Print Assumptions equal_copy_invariant.
 
 (* every user type pointer and every Object pointer of the copy is fresh *)
 Theorem dup_fresh E offu offk fuel t E' t' :
@@ -284,3 +306,11 @@ Proof. vm_compute. reflexivity. Qed.
 Example sound_class_example :
   cls (TObj 0 [F [99%N] ai_none tInt; F [122%N] ai_none (TObj 1 [F [98%N] ai_none tInt])]) /\ ~ cls w_flat /\ cls w_nested.
 Proof. exact cls_example. Qed.
+
+(* the two members of A = {next: B}, B = {next: A} are Equal although each hash reads the
+   partial string of the other's enclosing object: the two hashes do not share a seen map *)
+Example equal_twins_example :
+  let E := [(0, UT [65%N] [] ai_none (TObj 0 [F [110%N] ai_none (TUser 1)]) None);
+            (1, UT [66%N] [] ai_none (TObj 1 [F [110%N] ai_none (TUser 0)]) None)] in
+  Equal 8 E (TUser 0) E (TUser 1) = Some true.
+Proof. vm_compute. reflexivity. Qed.
